@@ -115,6 +115,45 @@ end EinoV.Oracle.GraphCase
 namespace EinoV.Oracle.GraphCase
 open Lean EinoV EinoV.Engine
 
+/-- the case of the nested graph run by node `k` of case `j`, if `k` is a graph node -/
+def subCaseOf (j : Json) (k : Key) : Option Json :=
+  (J.arrD j "nodes").findSome? (fun n =>
+    if J.strD n "key" "" == k then
+      match n.getObjVal? "body" with
+      | .ok b => if J.strD b "op" "" == "graph" then (b.getObjVal? "g").toOption else none
+      | .error _ => none
+    else none)
+
+/-- **Every error the run of case `j` on `input` may report** (empty iff the run succeeds).
+    Which failure a run reports depends on the order in which the tasks of the failing step
+    complete — at every nesting level independently: the failing step's tasks are probed under
+    a family of completion schedules at this level, and a failure attributed to a nested graph
+    node is replaced by every failure that nested run may report on the input it received. -/
+partial def errAlts (j : Json) (input : FlatMap) : JE (List Err) := do
+  let g ← parseGraphR 0 j
+  let r := compile defaultStepSlack g
+  if J.boolD j "negMaxSteps" false && !g.dag then return [{ cls := .user 9996 }]
+  let out := run flatOps r input
+  match out.result with
+  | .ok _ => pure []
+  | .error e0 =>
+    let last : List (Key × FlatMap) := out.trace.getLast?.getD []
+    let rs ← (List.range (numRules 8)).mapM (fun rule => do
+      let g' ← parseGraphR rule j
+      let r' := compile defaultStepSlack g'
+      pure (runS flatOps r' (ruleSched 8 rule) input).result)
+    let errs := (e0 :: rs.filterMap (fun x => match x with | .error e => some e | .ok _ => none))
+    let expanded ← errs.mapM (fun e =>
+      match e.path with
+      | k :: _ =>
+        match subCaseOf j k, alookup k last with
+        | some sg, some tin => do
+            let sub ← errAlts sg tin
+            if sub.isEmpty then pure [e] else pure (sub.map (·.wrapNode k))
+        | _, _ => pure [e]
+      | [] => pure [e])
+    pure expanded.flatten.eraseDups
+
 /-- Run the graph of case `j` on `input`; output {"result":…, "trace":[[{"k":key,"in":…,"sub":…}]]}
     where "sub" is the nested outcome of a graph node run on that task's input. -/
 partial def outcomeJson (j : Json) (input : FlatMap) : JE Json := do
@@ -123,14 +162,7 @@ partial def outcomeJson (j : Json) (input : FlatMap) : JE Json := do
   if J.boolD j "negMaxSteps" false && !g.dag then
     return Json.mkObj [("result", resultJson (.error { cls := .user 9996 })), ("trace", J.mkArr []), ("alts", J.mkArr [])]
   let out := run flatOps r input
-  let nodesJ := J.arrD j "nodes"
-  let subOf (k : Key) : Option Json :=
-    nodesJ.findSome? (fun n =>
-      if J.strD n "key" "" == k then
-        match n.getObjVal? "body" with
-        | .ok b => if J.strD b "op" "" == "graph" then (b.getObjVal? "g").toOption else none
-        | .error _ => none
-      else none)
+  let subOf (k : Key) : Option Json := subCaseOf j k
   let steps ← out.trace.mapM (fun step => do
     let ts ← (sortTasks step).mapM (fun t => do
       let base := [("k", Json.str t.1), ("in", Json.str (FlatMap.render t.2))]
@@ -141,15 +173,8 @@ partial def outcomeJson (j : Json) (input : FlatMap) : JE Json := do
       | none => pure (Json.mkObj base))
     pure (J.mkArr ts))
   -- which failure a run reports can depend on the order in which the tasks of the failing
-  -- step complete: every result reachable under the probed completion schedules is legitimate
-  let alts : List Json ← match out.result with
-    | .error _ => do
-        let rs ← (List.range (numRules 8)).mapM (fun rule => do
-          let g' ← parseGraphR rule j
-          let r' := compile defaultStepSlack g'
-          pure (resultJson (runS flatOps r' (ruleSched 8 rule) input).result).compress)
-        pure (rs.eraseDups.filterMap (fun t => (Json.parse t).toOption))
-    | .ok _ => pure []
+  -- step complete (at every nesting level): every reachable result is legitimate
+  let alts : List Json := (← errAlts j input).map (fun e => resultJson (.error e))
   pure (Json.mkObj [("result", resultJson out.result), ("trace", J.mkArr steps), ("alts", J.mkArr alts)])
 
 end EinoV.Oracle.GraphCase
